@@ -134,7 +134,13 @@ func genRe(r *rand.Rand, depth int, alphabet string, grp *int, allowGroups bool,
 		return &Re{Kind: "alt", A: a, B: b}
 	case 7:
 		op := []string{"star", "plus", "opt"}[r.Intn(3)]
-		return &Re{Kind: op, A: genRe(r, depth-1, alphabet, grp, allowGroups, names)}
+		body := genRe(r, depth-1, alphabet, grp, allowGroups, names)
+		if op != "opt" && body.nullable() {
+			// a repetition of a body that can match the empty string: Go's capture semantics for
+			// empty iterations is outside the regex environment model; make the body consume a byte
+			body = &Re{Kind: "seq", A: &Re{Kind: "chr", C: alphabet[r.Intn(len(alphabet))]}, B: body}
+		}
+		return &Re{Kind: op, A: body}
 	default:
 		if !allowGroups || (names != nil && *grp >= len(names)) {
 			return &Re{Kind: "chr", C: alphabet[r.Intn(len(alphabet))]}
@@ -148,4 +154,18 @@ func genRe(r *rand.Rand, depth int, alphabet string, grp *int, allowGroups bool,
 		g.A = genRe(r, depth-1, alphabet, grp, allowGroups, names)
 		return g
 	}
+}
+
+func (r *Re) nullable() bool {
+	switch r.Kind {
+	case "eps", "star", "opt":
+		return true
+	case "seq":
+		return r.A.nullable() && r.B.nullable()
+	case "alt":
+		return r.A.nullable() || r.B.nullable()
+	case "plus", "grp":
+		return r.A.nullable()
+	}
+	return false
 }
